@@ -427,7 +427,8 @@ def gen_states(rng, n_states):
 
 def gen_program(rng, n_states, n_eps):
     """the sequence of invocations and archive manipulations of one history: episodes of
-    (uploader run, optional manipulation of the archive, optional wipe of the downloader, 2-3 downloader runs)"""
+    (uploader run, optional manipulation of the archive, optional wipe of the downloader, 3-4 downloader runs),
+    then every download mode once more on the downloader's final workspace (cheap: mostly skip decisions)"""
     prog = []
     fph = {"A": "h1", "B": "h1" if rng.random() < 0.75 else "h2"}
     flags = {"A": ["download", "upload"], "B": ["download", "upload"]}
@@ -445,10 +446,15 @@ def gen_program(rng, n_states, n_eps):
             prog.append({"op": "tamper", "kind": rng.choice(["wronglive", "wronglive", "wronglive", "corrupt", "noaudit", "delete", "plant"])})
         if rng.random() < 0.55:
             prog.append({"op": "tamper", "kind": "wipeB"})
-        for _ in range(rng.randint(2, 3)):
+        for _ in range(rng.randint(3, 4)):
             st = last_a if rng.random() < 0.65 else rng.randrange(n_states)
             prog.append({"op": "run", "ws": "B", "state": st, "mode": rng.choice(MODES), "upload": rng.random() < 0.2,
                          "force": rng.random() < 0.08})
+    sweep = list(MODES)
+    rng.shuffle(sweep)
+    st = rng.randrange(n_states)
+    for m in sweep:
+        prog.append({"op": "run", "ws": "B", "state": st, "mode": m, "upload": False, "force": False})
     return prog, fph, flags
 
 
@@ -496,7 +502,10 @@ def execute_history(h, rng):
         for d in wsdir.values():
             os.makedirs(d)
         # local reference builds, one per state
+        used = {st["state"] for st in h.prog if st["op"] == "run"} | {0}
         for i, desc in enumerate(h.states):
+            if i not in used:
+                continue
             rd = os.path.join(base, "ref%d" % i)
             os.makedirs(rd)
             proj.write_project(no_archive(desc), rd)
@@ -1146,7 +1155,7 @@ def history_from_json(hid, c):
 
 def process(ctx, hs):
     """execute on the implementation, evaluate the model, compare, run the oracles"""
-    with ThreadPoolExecutor(max_workers=int(os.environ.get("C07_JOBS", "10"))) as ex:
+    with ThreadPoolExecutor(max_workers=int(os.environ.get("C07_JOBS", "12"))) as ex:
         list(ex.map(lambda h: execute_history(h, random.Random(getattr(h, "seed", 0) + 7)), hs))
     good = []
     for h in hs:
@@ -1251,11 +1260,11 @@ def run(ctx):
     for name, c in load_corpus():
         hs.append(history_from_json(len(hs), c))
         ctx.count("corpus")
-    n_hist = ctx.n(14, 220)          # about 30 % of the generated projects are rejected by the parser (cheaply)
+    n_hist = ctx.n(9, 200)           # about 30 % of the generated projects are rejected by the parser (cheaply)
     if os.environ.get("C07_HISTORIES") is not None:      # development aid: C07_HISTORIES=0 runs the corpus only
         n_hist = int(os.environ["C07_HISTORIES"])
     for i in range(n_hist):
-        hs.append(make_history(len(hs), rng.randrange(1 << 30), ctx.n(3, 4), ctx.n(3, 5)))
+        hs.append(make_history(len(hs), rng.randrange(1 << 30), ctx.n(2, 4), ctx.n(2, 5)))
     process(ctx, hs)
 
 
